@@ -12,7 +12,15 @@ Protocol lines of a case (the Lean driver is stateful, `reset` precedes every ca
                      real: parse(text) with the default cleanup             -> ok <tree> | err X   (observable)
   cf                 does the last raw tree conform to the productions the *model* generates for the templates
                      (hypothesis of the theorems, evaluated on every real tree)      -> ok 1
-  lp/mp/sp …         ListProds / MapProds / ProdSequence: generated productions and signature tables
+  G smart start keep [..] groups [..] syn [..] T [..] E <entries>   the whole constructor inside the model: token groups,
+                     synonyms, the user's dictionary with its templates / AnyTokenExcept items (`constructT` on top of the
+                     LL parser model: factorisation, nullables, FIRST/FOLLOW, table, recursion check, cleanuper)
+                                                                              -> ok squash [..] choice [..] | err X
+  tp <lexemes>       model: tokens -> LL parse loop -> raw tree (sequences flattened); real: parse(text, do_cleanup=False)
+  tc                 the same lexemes, model parse + model clean-up; real: parse(text)   -> ok <tree> | err X (observable,
+                     includes rejection of texts the grammar cannot read)
+  lp/mp/sp/pr …      ListProds / MapProds / ProdSequence / production lists (AnyTokenExcept anywhere): generated
+                     productions and signature tables
   sq <tree>          LLParser._process_seq_telement applied innermost-first to an un-flattened sequence
 
 The oracle never looks at the model: it renders nested data to text (random blanks / newlines / comments),
